@@ -44,6 +44,10 @@ struct JsonW {
         ArenaText<C> buf(text);
         ArenaObj<VT> res;
         cx.parses++;
+        if (has_long_exponent(text)) {
+            qsim::set_soft_budget(true);
+            qsim::probe("json.long-exponent-soft-budget");
+        }
         if (variant == 1) {
             ArenaObj<Stm> stream;
             ArenaText<C>  pre(scratch);
